@@ -260,7 +260,7 @@ func extractC06() *lean {
 				return true
 			}
 			fn := c06Expr(c.Fun)
-			if fn == "s.db.Read" || fn == "s.db.Write" {
+			if fn == "s.db.Read" || fn == "s.db.Write" || fn == "s.addMutex.Lock" {
 				phases = append(phases, fn)
 			}
 			if fn == "s.db.Write" && len(c.Args) >= 2 {
